@@ -22,8 +22,9 @@ ASSUMPTIONS = ["angles and dihedrals are generated along bonds, so interaction-m
 BUDGET = {"quick": (16, 200), "thorough": (16, 5000)}
 
 
-def _case(mixed, safe):
-    return gp.case(mixed_nrexcl=mixed, link_bias=True, bonded_only=True, max_res=6, allow_replace=False,
+def _case(mixed, safe, removal=False):
+    return gp.case(mixed_nrexcl=mixed, link_bias=True, bonded_only=True, max_res=6, allow_replace=removal,
+                   removal_bias=removal,
                    f22_safe=safe, min_blocks=2 if mixed else 1, min_res=2, explicit_links=True,
                    name_modes=("block", "random", "random") if mixed else ("homo", "block", "random"))
 
@@ -31,7 +32,7 @@ def _case(mixed, safe):
 def strategy(tier):
     # the shape of known finding F22 is excluded by construction in 5 of 6 draws
     return st.one_of(_case(True, True), _case(True, True), _case(True, True), _case(True, True),
-                     _case(False, True), _case(True, False))
+                     _case(False, True), _case(True, False), _case(True, True, removal=True))
 
 
 def f22_shape(spec):
